@@ -30,6 +30,7 @@ type c01Shape struct {
 	RespSize  int
 	RespFrame string // length, chunked, flush
 	Trailer   []wire.HeaderLine
+	FixedDate bool // the backend sets a (backdated) Date header itself
 }
 
 func (s c01Shape) String() string {
@@ -50,6 +51,9 @@ func (s c01Shape) request(host string) *wire.Request {
 
 func (s c01Shape) script() *wire.Script {
 	sc := &wire.Script{Status: s.Status, Interim: s.Interim, Header: append([]wire.HeaderLine{{"Content-Type", "application/octet-stream"}}, s.RespHdr...)}
+	if s.FixedDate {
+		sc.Header = append(sc.Header, wire.HeaderLine{"Date", "Tue, 15 Nov 1994 08:12:31 GMT"})
+	}
 	body := pattern(s.RespSize, 11)
 	sc.Trailer = s.Trailer
 	switch s.RespFrame {
@@ -103,6 +107,9 @@ func newC01Inst(name, strategy, basePath string, reqID, trace bool) (*c01Inst, e
 		cfg.CircuitBreaker = config.CircuitBreakerConfig{Enabled: true, MaxRequests: 1, IntervalSeconds: 60, TimeoutSeconds: 60, FailureThreshold: 1000000, SuccessThreshold: 1}
 		cfg.RateLimit = config.RateLimitConfig{Enabled: true, MaxTokens: 1000000, RefillRate: 1}
 		cfg.HealthChecks.Passive = config.PassiveHealthCheckConfig{Enabled: true, UnhealthyThreshold: 1000000, UnhealthyTimeout: 1}
+	case "timeouts":
+		// every timeout configured, generously: the exchange never reaches one, so nothing may change
+		cfg.Server.Timeouts = config.TimeoutConfig{Read: 30, Write: 30, Idle: 30, Handler: 30, Shutdown: 5, BackendDial: 5, BackendRead: 30, BackendIdle: 30}
 	case "plugins":
 		// plugins that do not transform: logging, and size_limit with limits far above every shape
 		cfg.Plugins = config.PluginsConfig{Enabled: true, Chain: []config.PluginConfig{{Name: "logging"}, sizeLimitCfg(1<<30, 1<<30)}}
@@ -179,6 +186,15 @@ func (in *c01Inst) compare(s c01Shape) (out []c01Diff) {
 	if d.RequestURI != v.RequestURI {
 		add("request/target", fmt.Sprintf("backend saw request-target %q, expected %q", v.RequestURI, d.RequestURI))
 	}
+	if d.Host != v.Host {
+		add("request/host", fmt.Sprintf("backend saw Host %q, the client sent %q", v.Host, d.Host))
+	}
+	// ID headers the client supplied itself are end-to-end headers like any other
+	for _, id := range in.idHdrs {
+		if dv := d.Header.Values(id); len(dv) > 0 && fmt.Sprint(dv) != fmt.Sprint(v.Header.Values(id)) {
+			add("request/client-supplied-id-altered", fmt.Sprintf("%s: client sent %q, backend saw %q", id, dv, v.Header.Values(id)))
+		}
+	}
 	if !bytes.Equal(d.Body, v.Body) {
 		add("request/body", fmt.Sprintf("backend received %d body bytes, client sent %d (equal prefix %d)", len(v.Body), len(d.Body), commonPrefix(d.Body, v.Body)))
 	}
@@ -227,6 +243,10 @@ func (in *c01Inst) compare(s c01Shape) (out []c01Diff) {
 		add("response/body", fmt.Sprintf("client received %d body bytes, backend sent %d (equal prefix %d)", len(vr.Body), len(dr.Body), commonPrefix(dr.Body, vr.Body)))
 	}
 	rign := append([]string{"date", "content-length"}, in.idHdrs...)
+	if s.FixedDate {
+		// the backend stamped its answer itself (backdated): Date is an end-to-end header
+		rign = rign[1:]
+	}
 	drh, vrh := wire.EndToEnd(dr.Header, rign...), wire.EndToEnd(vr.Header, rign...)
 	if !reflect.DeepEqual(drh, vrh) {
 		added, del := diff(drh, vrh)
@@ -393,7 +413,37 @@ func TestVerifC01(t *testing.T) {
 	for _, s := range c01Core(th) {
 		jobs = append(jobs, job{"features", s})
 	}
+	// every registered status code once (net/http and httputil special-case several of them), every
+	// method incl. TRACE and an extension method with a small body, large heads and bodies, a
+	// backdated Date
+	for _, st := range []int{201, 202, 203, 205, 206, 207, 226, 300, 301, 302, 303, 307, 308, 400, 401, 402, 403, 405, 406, 408, 409, 410, 411, 412, 413, 414, 415, 416, 417, 418, 421, 422, 425, 426, 428, 429, 431, 451, 500, 501, 502, 503, 504, 505, 507, 511, 599} {
+		x := c01Shape{Method: "GET", Target: "/r", ReqSize: -1, Status: st, RespSize: 40, RespFrame: "length", RespHdr: []wire.HeaderLine{{"Retry-After", "7"}, {"Location", "/elsewhere"}, {"WWW-Authenticate", "Basic realm=\"x\""}}}
+		jobs = append(jobs, job{"round_robin", x})
+		if st >= 500 || st == 429 {
+			jobs = append(jobs, job{"features", x})
+		}
+	}
+	for _, m := range []string{"PUT", "PATCH", "DELETE", "TRACE", "PROPFIND", "PURGE", "GET"} {
+		for _, chunked := range []bool{false, true} {
+			jobs = append(jobs, job{"round_robin", c01Shape{Method: m, Target: "/r", ReqSize: 13, ReqChunk: chunked, Status: 200, RespSize: 5, RespFrame: "length"}})
+		}
+	}
+	manyCookies := []wire.HeaderLine{}
+	for i := 0; i < 40; i++ {
+		manyCookies = append(manyCookies, wire.HeaderLine{"Set-Cookie", fmt.Sprintf("c%d=%s; Path=/", i, strings.Repeat("v", 900))})
+	}
+	for _, big := range [][]wire.HeaderLine{{{"X-Big", strings.Repeat("b", 20*1024)}}, {{"X-Big", strings.Repeat("b", 70*1024)}}, manyCookies} {
+		jobs = append(jobs, job{"round_robin", c01Shape{Method: "GET", Target: "/r", ReqSize: -1, Status: 200, RespSize: 2, RespFrame: "length", RespHdr: big}})
+	}
+	jobs = append(jobs, job{"round_robin", c01Shape{Method: "POST", Target: "/r", ReqSize: 100, ReqHdr: []wire.HeaderLine{{"X-Big", strings.Repeat("q", 60*1024)}}, Status: 200, RespSize: 2, RespFrame: "length"}})
+	for _, sz := range []int{1 << 20, 5<<20 + 3} {
+		jobs = append(jobs, job{"round_robin", c01Shape{Method: "POST", Target: "/r", ReqSize: sz, Status: 200, RespSize: sz, RespFrame: "chunked"}},
+			job{"plugins", c01Shape{Method: "POST", Target: "/r", ReqSize: sz, ReqChunk: true, Status: 200, RespSize: sz, RespFrame: "length"}})
+	}
 	for _, s := range c01Twelve() {
+		fd := s
+		fd.FixedDate = true
+		jobs = append(jobs, job{"round_robin", fd}, job{"timeouts", s})
 		jobs = append(jobs, job{"plugins", s})
 		for _, p := range c01Paths {
 			for _, q := range c01Queries {
@@ -430,6 +480,9 @@ func TestVerifC01(t *testing.T) {
 					y := x
 					y.ReqHdr = []wire.HeaderLine{{"X-Request-ID", "client-supplied-1"}, {"X-Trace-ID", "trace-77"}}
 					jobs = append(jobs, job{inst, y})
+					z := x
+					z.ReqHdr = []wire.HeaderLine{{"X-Request-ID", "Edge-7F3A"}, {"X-Request-ID", "app,0042"}, {"X-Trace-ID", "T=1;x"}}
+					jobs = append(jobs, job{inst, z})
 				}
 			}
 		}
@@ -450,7 +503,7 @@ func TestVerifC01(t *testing.T) {
 			in, err = newC01Inst(name, "round_robin", "", false, true)
 		case name == "ids:both":
 			in, err = newC01Inst(name, "round_robin", "", true, true)
-		case name == "features" || name == "plugins":
+		case name == "features" || name == "plugins" || name == "timeouts":
 			in, err = newC01Inst(name, "round_robin", "", false, false)
 		default:
 			in, err = newC01Inst(name, name, "", false, false)
